@@ -560,12 +560,93 @@ func linearizability(r *mon.Run, c Case) {
 	inspectCache(r, inner, c.Capacity, c)
 }
 
+// sequentialLRU: one client, a long PRNG program over a key universe a little larger than the capacity, at
+// capacities far beyond the small ones the concurrent histories use (and on both sides of powers of two): every Get
+// must return exactly what a sequential LRU of that capacity holds - the latest expansion put for a resident key,
+// nothing for a key that was never put or has been evicted as the least recently used one.
+func sequentialLRU(r *mon.Run, c Case) {
+	rng := r.Rng(c.Stream)
+	universe := c.Capacity + 1 + rng.IntN(5)
+	if universe > len(lk.pubs) {
+		universe = len(lk.pubs)
+	}
+	inner := cache.NewLRUCache(c.Capacity)
+	type ent struct {
+		key int
+		val *ed25519.ExpandedPublicKey
+	}
+	var model []ent // front = most recently used
+	find := func(k int) int {
+		for i, e := range model {
+			if e.key == k {
+				return i
+			}
+		}
+		return -1
+	}
+	touch := func(i int) {
+		e := model[i]
+		copy(model[1:i+1], model[:i])
+		model[0] = e
+	}
+	nops := 6*c.Capacity + 60
+	var scratch curve.CompressedEdwardsY
+	for op := 0; op < nops; op++ {
+		k := rng.IntN(universe)
+		if op < c.Capacity+2 {
+			k = op % universe // fill up in order first, so that the capacity limit is reached exactly
+		}
+		scratch = lk.comps[k]
+		r.Eval(nil)
+		if rng.IntN(3) != 0 || op < c.Capacity+2 {
+			e, _ := ed25519.NewExpandedPublicKey(lk.pubs[k])
+			inner.Put(&scratch, e)
+			if i := find(k); i >= 0 {
+				model[i].val = e
+				touch(i)
+			} else {
+				if len(model) == c.Capacity {
+					model = model[:len(model)-1]
+				}
+				model = append([]ent{{k, e}}, model...)
+			}
+		} else {
+			got := inner.Get(&scratch)
+			var want *ed25519.ExpandedPublicKey
+			if i := find(k); i >= 0 {
+				want = model[i].val
+				touch(i)
+			}
+			if got != want {
+				r.Violate("cache/sequential-lru", fmt.Sprintf("capacity %d, universe %d, operation %d: Get(key %d) returned %s, a sequential LRU holds %s (%d keys resident in the model)", c.Capacity, universe, op, k, descr(got), descr(want), len(model)), c)
+				return
+			}
+		}
+		if op%64 == 0 {
+			inspectCache(r, inner, c.Capacity, c)
+		}
+	}
+	inspectCache(r, inner, c.Capacity, c)
+	r.Hist(fmt.Sprintf("sequential-lru/capacity=%d", c.Capacity))
+	r.HistN("sequential-lru/operations", int64(nops))
+}
+
+func descr(e *ed25519.ExpandedPublicKey) string {
+	if e == nil {
+		return "nothing"
+	}
+	y := e.CompressedY()
+	return fmt.Sprintf("an expansion of %x..", y[:4])
+}
+
 func runCase(r *mon.Run, c Case) {
 	switch c.Kind {
 	case "stress":
 		stress(r, c)
 	case "linearizability":
 		linearizability(r, c)
+	case "sequential-lru":
+		sequentialLRU(r, c)
 	}
 }
 
@@ -706,7 +787,7 @@ func main() {
 	var c Case
 	// key universe for the histories
 	krng := r.Rng("c18/keys")
-	for i := 0; i < 8; i++ {
+	for i := 0; i < 320; i++ {
 		priv := ed25519.NewKeyFromSeed(mon.Bytes(krng, 32))
 		pub := priv.Public().(ed25519.PublicKey)
 		var y curve.CompressedEdwardsY
@@ -729,6 +810,11 @@ func main() {
 	r.Observe("GOMAXPROCS", runtime.GOMAXPROCS(0))
 	for i := 0; i < r.Pick(6, 40); i++ {
 		runCase(r, Case{Kind: "stress", Stream: fmt.Sprintf("c18/stress/%d", i), Clients: r.Pick(8, 32), Ops: r.Pick(40, 150)})
+	}
+	for rep := 0; rep < r.Pick(1, 6); rep++ {
+		for _, capa := range []int{1, 2, 3, 7, 8, 9, 63, 64, 65, 127, 128, 129, 130, 255, 256, 257, 300} {
+			runCase(r, Case{Kind: "sequential-lru", Stream: fmt.Sprintf("c18/seq/%d/%d", capa, rep), Capacity: capa})
+		}
 	}
 	nh := r.Pick(1500, 30000)
 	for i := 0; i < nh; i++ {
